@@ -32,7 +32,7 @@ def ctor_args(tier, seed):
     rnd = random.Random(seed)
     base = [92, 93, 91, 94, 45, 47, 36, 46, 97, 98, 122, 48, 57, 10, 32, 95, 96, 44, 0x10FFFF, 0]
     toks = ['Backslash', 'Dollar', 'Newline', 'Space', 'Euro']
-    bads = ['multi', 'int', 'none']      # '' and non-token Pregex arguments are unspecified: judged only by C03
+    bads = ['multi', 'multiesc', 'int', 'none']      # '' and non-token Pregex arguments are unspecified: judged only by C03
     if tier == 'quick':
         chars = base[:9] + rnd.sample([c for c in UV.CATALOGUE if c not in base], 2)
         return [('c', c) for c in chars] + [('tok', t) for t in toks[:2]] + [('bad', b) for b in bads]
